@@ -205,6 +205,30 @@ func auditOracleOpt(root *simrt.Inode, ex *Expect, insts map[string]*simrt.OpIns
 	return OK()
 }
 
+// taggedOnDiskOracle: after a run that completed, the record ON DISK of every
+// file that passed through a tagging component holds the tag the component
+// attached to it ("recording ... tags"; reading the record back must not lose
+// what the item carried). The re-writes of one audit file by several
+// components are serialised by the IP's lock and each marshals after its own
+// AddTags, so the last one written holds every tag attached so far.
+func taggedOnDiskOracle(root *simrt.Inode, ex *Expect) Verdict {
+	for _, p := range sortedKeys(ex.Attached) {
+		if n := simrt.Find(root, p); n == nil || n.Kind != simrt.KFile {
+			continue
+		}
+		r, err := readAudit(root, p)
+		if err != nil {
+			return Viol("audit-unreadable", "", "%v", err)
+		}
+		for _, k := range sortedKeys(ex.Attached[p]) {
+			if v := ex.Attached[p][k]; r.Tags[k] != v {
+				return Viol("audit-tag-not-on-disk", "", "%s passed through a tagging component that attached %s=%s to it, but its audit file on disk records the tags %v: reading the record back loses the tag", strings.TrimPrefix(p, "/work/"), k, v, r.Tags)
+			}
+		}
+	}
+	return OK()
+}
+
 var profC10 = Profile{
 	MaxProcs: 5, MaxItems: 3, Bufsizes: []int{0, 1, 2}, MaxSlots: 4,
 	Params: true, MultiOut: true, FanIn: true, FanOut: true, NoPort: true, Custom: true,
@@ -220,6 +244,8 @@ func init() {
 				return lazyTagCase(c)
 			case 2:
 				return globDepCase(c)
+			case 3:
+				return siblingTaggerCase(c)
 			}
 			w := Generate(c.Tape, tierProfile(profC10, c.Tier))
 			AddTagArgs(c.Tape, w)
@@ -258,7 +284,13 @@ func init() {
 				}
 				return v
 			}
-			return auditOracle(inc.Sim.FS.Root, ex, instsByKey(inc))
+			if v := auditOracle(inc.Sim.FS.Root, ex, instsByKey(inc)); v.Status != "ok" {
+				return v
+			}
+			if len(ex.Attached) > 0 {
+				c.Probe("tagged-file-record-on-disk-checked")
+			}
+			return taggedOnDiskOracle(inc.Sim.FS.Root, ex)
 		}})
 }
 
@@ -475,7 +507,8 @@ func init() {
 				if cl, d := ancestorsIdentical(final, before, ex, existed); cl != "" {
 					return Viol(cl, "", "%s", d)
 				}
-				return OK()
+				// (what a tagging component attached is on disk too: reading back loses nothing)
+				return taggedOnDiskOracle(final, ex)
 			}
 			switch mode {
 			case 0: // RunTo prefix, then Run
@@ -676,6 +709,80 @@ func lazyTagCase(c *Case) Verdict {
 		for in := range r.Upstream {
 			if want := TagValue(in); r.Tags["kind"] != want {
 				return Viol("audit-tags-lost", "", "%s.audit.json: tag kind=%s attached upstream (by the tagging component, to %s) is missing on this downstream record (Tags %v)", strings.TrimPrefix(p, "/work/"), want, in, r.Tags)
+			}
+		}
+	}
+	return OK()
+}
+
+// siblingTaggerCase: the outputs of ONE task (they share one audit record in
+// memory) are tagged with the SAME key and value - by a tagging component per
+// out-port, or by one component that receives both out-ports. Every tagged
+// file's record on disk, and every downstream record, must hold the tag: the
+// second component must not conclude from the shared in-memory record that
+// there is nothing left to write.
+func siblingTaggerCase(c *Case) Verdict {
+	t := c.Tape
+	w := &WF{Name: "wf", Sources: map[string]string{}, MaxTasks: 1 + t.Choose(simrt.StGen, 4, 0), Bufsize: bufsizeOf(t)}
+	e := Edge{srcNode(w, "src0", 1+t.Choose(simrt.StGen, 3, 0), ""), "out"}
+	if t.Choose(simrt.StGen, 2, 0) == 1 {
+		e = Edge{oneToOne(w, "pre", e), "o0"}
+	}
+	nout := 2 + t.Choose(simrt.StGen, 2, 0)
+	p0 := Node{Name: "p0", Kind: KProc, Cores: 1, Ins: []InSpec{{Name: "a", From: []Edge{e}}}}
+	for i := 0; i < nout; i++ {
+		p0.Outs = append(p0.Outs, OutSpec{Name: fmt.Sprintf("o%d", i), Pattern: fmt.Sprintf("{i:a}.p0.o%d", i)})
+	}
+	pi := addNode(w, p0)
+	oneTagger := t.Choose(simrt.StGen, 3, 0) == 1
+	var tagged []Edge
+	if oneTagger {
+		var from []Edge
+		for i := 0; i < nout; i++ {
+			from = append(from, Edge{pi, fmt.Sprintf("o%d", i)})
+		}
+		tg := addNode(w, Node{Name: "tag", Kind: KMapToTags, TagKey: "sample", TagGroups: 1,
+			Ins: []InSpec{{Name: "in", From: from}}, Outs: []OutSpec{{Name: "out"}}})
+		tagged = append(tagged, Edge{tg, "out"})
+	} else {
+		for i := 0; i < nout; i++ {
+			tg := addNode(w, Node{Name: fmt.Sprintf("tag%d", i), Kind: KMapToTags, TagKey: "sample", TagGroups: 1,
+				Ins: []InSpec{{Name: "in", From: []Edge{{pi, fmt.Sprintf("o%d", i)}}}}, Outs: []OutSpec{{Name: "out"}}})
+			tagged = append(tagged, Edge{tg, "out"})
+		}
+	}
+	for i, te := range tagged {
+		oneToOne(w, fmt.Sprintf("use%d", i), te)
+	}
+	c.Sample = "sibling outputs tagged alike: " + sample(w)
+	c.Probe("sibling-outputs-tagged-alike")
+	ex := Eval(w)
+	inc := RunInc(w, c.Tape, nil, 0, IncOpts{KillAt: -1, Strategy: strategyOf(c.Tape), Trace: c.Trace})
+	c.Absorb(inc)
+	if v, ok := inconclusiveEnd(inc); ok {
+		return v
+	}
+	if !completedOK(inc) {
+		return Skipped(Viol("no-completion", "", "%s", endDesc(inc)))
+	}
+	root := inc.Sim.FS.Root
+	if v := taggedOnDiskOracle(root, ex); v.Status != "ok" {
+		return v
+	}
+	for p, e := range WorkFiles(root) {
+		if e.Kind != simrt.KFile || !strings.Contains(baseName(p), ".use") || strings.HasSuffix(p, ".audit.json") {
+			continue
+		}
+		r, err := readAudit(root, p)
+		if err != nil {
+			return Viol("audit-unreadable", "", "%v", err)
+		}
+		if r.Tags["sample"] != "g0" {
+			return Viol("audit-tags-lost", "", "%s.audit.json: tag sample=g0 attached upstream is missing on this downstream record (Tags %v)", strings.TrimPrefix(p, "/work/"), r.Tags)
+		}
+		for in, up := range r.Upstream {
+			if up == nil || up.Tags["sample"] != "g0" {
+				return Viol("audit-tags-lost", "", "%s.audit.json: Upstream[%s] lacks the tag sample=g0 that was attached to that file", strings.TrimPrefix(p, "/work/"), in)
 			}
 		}
 	}
